@@ -10,6 +10,7 @@ package main
 import (
 	"encoding/json"
 	"fmt"
+	"net/url"
 	"os"
 	"path/filepath"
 	"regexp"
@@ -247,6 +248,14 @@ func checkC11(tier, replay string) int {
 			if c.Type == "ios" && (e.Class == "session-setting" && e.Mode == "config" || e.Class == "mode" && e.Raw == "configure terminal") {
 				forbidden = "config-mode: " + e.Raw
 				break
+			}
+		}
+		if forbidden == "" {
+			// Files copied to the device (Linux start-up files go by scp,
+			// not through the session).
+			if m, _ := filepath.Glob(filepath.Join(lr.Dir, "scp", "*")); len(m) > 0 {
+				name, _ := url.PathUnescape(filepath.Base(m[0]))
+				forbidden = "save: file copied to the device: " + name
 			}
 		}
 		if forbidden != "" {
